@@ -562,9 +562,31 @@ fn union_tpl_pattern_match(
     union: &LuaUnionType,
     target: &LuaType,
 ) -> TplPatternMatchResult {
+    let members = union.into_vec();
+    // An optional pattern (`T?`) consumes the `nil` of an optional argument: `T` is matched
+    // against `X`, not against `X?`.
+    let stripped_target;
+    let target = match target {
+        LuaType::Union(target_union) if members.iter().any(|member| member.is_nil()) => {
+            let target_members = target_union.into_vec();
+            let rest: Vec<LuaType> = target_members
+                .iter()
+                .filter(|member| !member.is_nil())
+                .cloned()
+                .collect();
+            if rest.is_empty() || rest.len() == target_members.len() {
+                target
+            } else {
+                stripped_target = LuaType::from_vec(rest);
+                &stripped_target
+            }
+        }
+        _ => target,
+    };
+
     let mut error_count = 0;
     let mut last_error = InferFailReason::None;
-    for u in union.into_vec() {
+    for u in members {
         match tpl_pattern_match(context, &u, target) {
             // 返回 ok 时并不一定匹配成功, 仅表示没有发生错误
             Ok(_) => {}
